@@ -2,6 +2,7 @@
 from __future__ import annotations
 
 import ast
+import re
 
 from .. import calg, jmodel as J
 from ..cskel import Skel
@@ -81,24 +82,28 @@ def check(ctx):
             for x in cands:
                 used.add(id(x))
                 _pair(ctx, m, kind, rs, x)
+        # (an RHS store whose shape was not understood may be the missing partner: then the pairing is undecided, not violated)
+        opaque_rhs = [x for x in m.sites if x.array == "rhs" and x.kind == "other" and any(p_[0] == "unrec" for p_ in x.problems)]
         for x in j:
             if id(x) not in used:
-                ctx.bad("R1", f"{site_key(x)}:orphan", where(x),
-                        f"Jacobian `{kind}` site has no RHS term with the same row domain and conditions (derivative of nothing)",
-                        found=x.text)
+                (ctx.unrec if (not r or opaque_rhs) else ctx.bad)(
+                    "R1", f"{site_key(x)}:orphan", where(x),
+                    f"Jacobian `{kind}` site has no RHS term with the same row domain and conditions (derivative of nothing)",
+                    **({} if (not r or opaque_rhs) else dict(found=x.text)))
     # Jacobian sites without an RHS counterpart
     for s in m.sites:
         if s.array == "jacrhs" and s.kind == "other":
             report_problems(ctx, "R1", s)
             if not s.problems:
-                ctx.bad("R1", f"{site_key(s)}:writer", where(s), "unclassified store into jacrhs")
+                ctx.unrec("R1", f"{site_key(s)}:writer", where(s), "unclassified store into jacrhs")
     ctx.floor("R1", "jacrhs accumulation sites", sum(len(v) for v in jac.values()), 5, (FILE, m.func.lineno))
 
     # ---- R3 thermal wrap ---------------------------------------------------------
     wraps = [s for s in m.sites if s.array == "jacrhs" and s.kind == "wrap"]
     if len(wraps) != 1:
-        (ctx.bad if wraps else ctx.missing)("R3", "jacrhs:wrap:count", (FILE, m.func.lineno), f"expected one wrap of the thermal Jacobian row, found {len(wraps)}")
-    for s in wraps:
+        # several plain stores: the wrap is spelled in a way that is not understood (arms, stages), not "wrapped twice"
+        (ctx.unrec if wraps else ctx.missing)("R3", "jacrhs:wrap:count", (FILE, m.func.lineno), f"expected one wrap of the thermal Jacobian row, found {len(wraps)}")
+    for s in wraps if len(wraps) == 1 else ():
         report_problems(ctx, "R3", s)
         f = s.fact
         slot0 = ("sub", m.JAC, simp(f.index))
@@ -107,22 +112,41 @@ def check(ctx):
         cond_store = sentinel_guard in gs
         rest = [g for g in gs if g != sentinel_guard]
         g_ok = len(rest) == 1 and rest[0][1] is True and m.is_has_thermal(rest[0][0])
-        ctx.check(g_ok, "R3", "jacrhs:wrap:guard", where(s), "wrap applied under `if has_thermal` only")
+        # wrong: applied unconditionally, or under the negated / only under the thermal flag plus nothing else that is understood;
+        # a further condition that is not understood is "cannot decide"
+        if g_ok or not rest or (len(rest) == 1 and m.is_has_thermal(rest[0][0])):
+            ctx.check(g_ok, "R3", "jacrhs:wrap:guard", where(s), "wrap applied under `if has_thermal` only",
+                      found="; ".join(("" if p else "not ") + show(c)[:80] for c, p in rest) or "unconditional")
+        else:
+            ctx.unrec("R3", "jacrhs:wrap:guard", where(s), "the condition under which the thermal row is wrapped is not understood: "
+                      + "; ".join(("" if p else "not ") + show(c)[:80] for c, p in rest))
         rng_ok = s.row == ("tgas",) and s.col and s.col[0] == "range" and len(s.col[1]) == 1 and m.is_n_spec(s.col[1][0]) and len(f.loops) == 1
-        ctx.check(bool(rng_ok), "R3", "jacrhs:wrap:range", where(s), "wrap visits row n_spec, columns range(n_spec), once each",
-                  found=f"row={s.row} col={show(s.col) if s.col else None}")
+        # wrong: another (understood) row, or a range of an understood bound that is not n_spec
+        rng_understood = s.row is not None and s.col is not None and s.col[0] == "range" and len(s.col[1]) == 1 and m._known_arith(s.col[1][0]) and len(f.loops) == 1 \
+            and not any(p_[0] == "unrec" for p_ in s.problems)
+        if rng_ok or rng_understood:
+            ctx.check(bool(rng_ok), "R3", "jacrhs:wrap:range", where(s), "wrap visits row n_spec, columns range(n_spec), once each",
+                      found=f"row={s.row} col={show(s.col) if s.col else None}")
+        else:
+            ctx.unrec("R3", "jacrhs:wrap:range", where(s), f"which entries the wrap visits is not understood: row={s.row} col={show(s.col)[:80] if s.col else None}, {len(f.loops)} loops")
         v = s.value
         slot = ("sub", m.JAC, simp(f.index))
         form_ok = False
+        form_known = False          # the stored value was read as C text over the old entry alone
         found = show(v)[:200]
         if cond_store and v[0] != "ifexp":
             # the same wrap as a conditional store: the sentinel is preserved by not touching the entry
             v = ("ifexp", ("cmp", ("Eq",), (slot, ("const", "0.0"))), ("const", "0.0"), v)
+        if v[0] == "phi" and len(v) == 4:
+            # `t = entry; if t != '0.0': t = wrap(t); entry = t`: the same conditional value, the untouched arm being the entry itself
+            v = ("ifexp", v[1], v[2], v[3])
         if v[0] == "ifexp":
             c, a, b = v[1], v[2], v[3]
             if c == ("cmp", ("NotEq",), (slot, ("const", "0.0"))):
                 a, b = b, a
                 c = ("cmp", ("Eq",), (slot, ("const", "0.0")))
+            if c == ("cmp", ("Eq",), (slot, ("const", "0.0"))) and a == slot:
+                a = ("const", "0.0")        # where the entry equals the sentinel, keeping the entry keeps the sentinel
             if c == ("cmp", ("Eq",), (slot, ("const", "0.0"))) and a == ("const", "0.0"):
                 lw = lower(b)
                 try:
@@ -130,18 +154,28 @@ def check(ctx):
                     if len(holes) == 1 and holes[0] in (("fmt", slot, None, -1), slot) and not lw.seqs:
                         hn = next(iter(lw.holes))
                         form_ok = calg.canon_str(lw.text).equiv(calg.canon_str(f"(gamma - 1.0) * ({hn}) / kerg / npar"))
+                        form_known = True
                         found = lw.text
                 except calg.CParseError:
                     pass
-        ctx.check(form_ok, "R3", "jacrhs:wrap:form", where(s),
-                  "entry := '0.0' if entry == '0.0' else (gamma-1)*(entry)/kerg/npar -- same factor as the RHS wrap, sentinel preserved",
-                  expected="'0.0' if e == '0.0' else f'(gamma - 1.0) * ( {e} ) / kerg / npar'", found=found)
+        else:
+            # no sentinel test at all around a plain store: every entry, the empty ones included, is rewritten
+            form_known = v[0] in ("fstr", "const")
+        if form_ok or form_known:
+            ctx.check(form_ok, "R3", "jacrhs:wrap:form", where(s),
+                      "entry := '0.0' if entry == '0.0' else (gamma-1)*(entry)/kerg/npar -- same factor as the RHS wrap, sentinel preserved",
+                      expected="'0.0' if e == '0.0' else f'(gamma - 1.0) * ( {e} ) / kerg / npar'", found=found)
+        else:
+            ctx.unrec("R3", "jacrhs:wrap:form", where(s), f"the value stored by the thermal wrap is not read as text over the old entry: {found}")
 
     # every store into jacrhs precedes every consumer (CSR builder, Jacobian(...)): all layouts see the same final entries
     from ..odemodel import write_read_order
     last, first = write_read_order(m, "jacrhs")
     if last is None or first is None:
         ctx.unrec("R3", "jacrhs:write-before-use", (FILE, m.func.lineno), "cannot locate the last store into jacrhs / its first consumer")
+    elif last.seq >= first[0] and not _csr_consumer(m, first):
+        ctx.unrec("R3", "jacrhs:write-before-use", (FILE, last.line), f"jacrhs is read at line {first[1]} ({first[2]}) before its last store at line {last.line}; that reader is not "
+                  "recognised as the CSR builder / the Jacobian object, so whether a layout misses the update is not decided")
     else:
         ctx.check(last.seq < first[0], "R3", "jacrhs:write-before-use", (FILE, last.line),
                   "jacrhs is complete (thermal prefactor included) before the sparse arrays and the Jacobian object are built from it" if last.seq < first[0] else
@@ -152,9 +186,20 @@ def check(ctx):
     init = [s for s in m.sites if s.array == "jacrhs" and s.kind == "init"]
     if len(init) == 1:
         v = simp(init[0].fact.value)
-        b = match(("binop", "Mult", ("binop", "Mult", ("list", (("const", "0.0"),)), V("a")), V("b")), v)
-        ctx.check(bool(b) and m.is_n_eqns(b["a"]) and m.is_n_eqns(b["b"]), "R4", "jacrhs-init", where(init[0]),
-                  "jacrhs = ['0.0'] * n_eqns * n_eqns", found=show(v)[:120])
+        t = const_table(v)
+        from .c03 import _npoly, _NEQ
+        if t is None:
+            ctx.unrec("R4", "jacrhs-init", where(init[0]), f"the initial value of the Jacobian table is not read as N copies of one constant: {show(v)[:120]}")
+        else:
+            size = ("const", 1)
+            for f_ in t[1]:
+                size = ("binop", "Mult", size, f_)
+            good = t[0] == ("const", "0.0") and _npoly(m, size) == {(_NEQ, _NEQ): 1}
+            # wrong only when the cell is another literal or the size is arithmetic over understood quantities that is not n_eqns squared
+            if good or (t[0][0] == "const" and all(m._known_arith(f_) for f_ in t[1])):
+                ctx.check(good, "R4", "jacrhs-init", where(init[0]), "jacrhs = ['0.0'] * n_eqns * n_eqns", found=show(v)[:120])
+            else:
+                ctx.unrec("R4", "jacrhs-init", where(init[0]), f"size / cell of the initial Jacobian table not understood: {show(v)[:120]}")
     else:
         ctx.missing("R4", "jacrhs-init", (FILE, m.func.lineno), f"expected one initialisation of jacrhs, found {len(init)}")
     # a table of rows created by list multiplication (`[[c] * n] * n`) is ONE row object referenced n times: a term added to one
@@ -199,7 +244,249 @@ def check(ctx):
     # each rendering is computed from the network of that call: the renderer keeps no memo between two renderings (shared with C17.R7)
     from .c17 import stateless_renderer
     stateless_renderer(ctx, package(ctx.tree), "R11")
+    _r12_own_tables(ctx, m)
+    _r13_terms_stay(ctx, m)
+    _r14_same_state(ctx)
 
+
+
+_CONTAINER_CALLS = {"dict", "list", "set", "defaultdict", "OrderedDict", "collections.defaultdict", "collections.OrderedDict", "deque", "collections.deque"}
+
+
+def _r12_own_tables(ctx, m):
+    """R12.  The tables a rendering fills in place are its own.  A helper of the renderer module that keeps a list in a container
+    living at module / class level (a memo of prepared terms) AND hands out that very list -- not a copy -- shares it with every later
+    rendering: the terms `_prepare_ode_content` then adds in place (modifier, heating, cooling, thermal prefactor) pile up in the memo,
+    and the next Jacobian is no longer the derivative of its RHS.  Reported only where all three facts are seen: kept in a process-wide
+    container, returned as the same object, edited in place by the caller."""
+    pkg = package(ctx.tree)
+    mod = pkg.modules.get(FILE)
+    if mod is None:
+        return
+    shared = set()
+    for st in mod.body:
+        tg, val = (st.targets, st.value) if isinstance(st, ast.Assign) else ([st.target], st.value) if isinstance(st, ast.AnnAssign) and st.value is not None else ((), None)
+        if val is not None and (isinstance(val, (ast.Dict, ast.List, ast.Set)) and not getattr(val, "elts", getattr(val, "keys", None)) or
+                                (isinstance(val, ast.Call) and ast.unparse(val.func) in _CONTAINER_CALLS)):
+            shared |= {t.id for t in tg if isinstance(t, ast.Name)}
+    cls_shared = set()
+    ci = pkg.classes.get("TemplateLoader")
+    for nm, val in (ci.attrs.items() if ci else ()):
+        if (isinstance(val, (ast.Dict, ast.List, ast.Set)) and not getattr(val, "elts", getattr(val, "keys", None))) or (isinstance(val, ast.Call) and ast.unparse(val.func) in _CONTAINER_CALLS):
+            cls_shared.add(nm)
+
+    def is_shared(e):
+        if isinstance(e, ast.Name):
+            return e.id in shared
+        return isinstance(e, ast.Attribute) and isinstance(e.value, ast.Name) and e.value.id in ("self", "cls", "TemplateLoader") and e.attr in cls_shared
+    helpers = {}            # helper name -> (line, container text): returns an object that is also kept in a shared container
+    cands = [(k, fn) for k, fn in (ci.methods.items() if ci else ())] + [(n_, fn) for (f_, n_), fn in pkg.functions.items() if f_ == FILE]
+    for name, fn in cands:
+        if not isinstance(fn, ast.FunctionDef):
+            continue
+        kept = {}
+        for n in ast.walk(fn):
+            if isinstance(n, ast.Assign) and len(n.targets) == 1:
+                t, v = n.targets[0], n.value
+                # G[key] = X
+                if isinstance(t, ast.Subscript) and is_shared(t.value) and isinstance(v, ast.Name):
+                    kept[v.id] = (n.lineno, ast.unparse(t.value))
+                # X = G.get(key) / G[key] / G.setdefault(key, ..)
+                if isinstance(t, ast.Name):
+                    src = v.func.value if isinstance(v, ast.Call) and isinstance(v.func, ast.Attribute) and v.func.attr in ("get", "setdefault", "pop") else \
+                        v.value if isinstance(v, ast.Subscript) else None
+                    if src is not None and is_shared(src) and not (isinstance(v, ast.Call) and v.func.attr == "pop"):
+                        kept[t.id] = (n.lineno, ast.unparse(src))
+            elif isinstance(n, ast.Call) and isinstance(n.func, ast.Attribute) and n.func.attr in ("append", "setdefault", "add") and is_shared(n.func.value) and n.args \
+                    and isinstance(n.args[-1], ast.Name):
+                kept[n.args[-1].id] = (n.lineno, ast.unparse(n.func.value))
+        rets = [r for r in ast.walk(fn) if isinstance(r, ast.Return) and isinstance(r.value, ast.Name) and r.value.id in kept]
+        if rets:
+            helpers[name] = kept[rets[0].value.id]
+    nchk = 0
+    for name, fn in cands:
+        if not isinstance(fn, ast.FunctionDef):
+            continue
+        for n in ast.walk(fn):
+            if isinstance(n, ast.Assign) and len(n.targets) == 1 and isinstance(n.targets[0], ast.Name) and isinstance(n.value, ast.Call):
+                f_ = n.value.func
+                callee = f_.attr if isinstance(f_, ast.Attribute) and isinstance(f_.value, ast.Name) and f_.value.id in ("self", "cls", "TemplateLoader") else f_.id if isinstance(f_, ast.Name) else None
+                if callee not in helpers:
+                    continue
+                var = n.targets[0].id
+                edits = [x for x in ast.walk(fn) if (isinstance(x, (ast.Assign, ast.AugAssign)) and any(
+                    isinstance(t, ast.Subscript) and isinstance(t.value, ast.Name) and t.value.id == var for t in (x.targets if isinstance(x, ast.Assign) else [x.target])))
+                    or (isinstance(x, ast.Call) and isinstance(x.func, ast.Attribute) and isinstance(x.func.value, ast.Name) and x.func.value.id == var
+                        and x.func.attr in ("append", "extend", "insert", "remove", "pop", "clear", "sort", "reverse"))]
+                nchk += 1
+                if edits:
+                    line, cont = helpers[callee]
+                    ctx.bad("R12", f"{name}:{var}:shared table edited in place", (FILE, edits[0].lineno),
+                            f"`{var}` is the list `{callee}` keeps in the process-wide container `{cont}` (line {line}) and returns as the same object; `{name}` then edits it in place "
+                            f"(line {edits[0].lineno}): the terms added here stay in the memo and are added AGAIN by the next rendering that hits it -- that Jacobian is not the derivative "
+                            "of its right-hand side", expected="a fresh list per rendering (return a copy, or do not memoise the table)", found=f"{var} = {ast.unparse(n.value)[:60]}")
+    ctx.ok("R12", "tables are per rendering", (FILE, m.func.lineno), f"no table edited in place is shared with a module / class level container ({len(helpers)} memo helpers, {nchk} uses checked)")
+
+
+def _r13_terms_stay(ctx, m):
+    """R13.  A term once added to a Jacobian entry stays: apart from the thermal prefactor no statement rewrites the TEXT of an entry.
+    Reported where the table (or an entry) is re-assigned from its own entries through a helper that splits the text into pieces and
+    joins a FILTERED selection of them: terms of the sum are dropped by a test on their text (membership in the terms of the other
+    sign, ..), which ignores how often a term occurs -- `- t + t + t` loses all three although only one pair cancels -- while the
+    right-hand side keeps every term."""
+    pkg = package(ctx.tree)
+    J_ = m.JACNAME
+    fn = pkg.method("TemplateLoader", "_prepare_ode_content")
+    n13 = 0
+    for n in ast.walk(fn):
+        if not isinstance(n, ast.Assign) or len(n.targets) != 1:
+            continue
+        t = n.targets[0]
+        base = t.value if isinstance(t, ast.Subscript) else t
+        if not (isinstance(base, ast.Name) and base.id == J_) or not any(isinstance(x, ast.Name) and x.id == J_ for x in ast.walk(n.value)):
+            continue
+        for c in ast.walk(n.value):
+            if not isinstance(c, ast.Call):
+                continue
+            f_ = c.func
+            callee = None
+            if isinstance(f_, ast.Attribute) and isinstance(f_.value, ast.Name) and f_.value.id in ("self", "cls", "TemplateLoader"):
+                callee = pkg.resolve("TemplateLoader", f_.attr)[1]
+            elif isinstance(f_, ast.Name):
+                callee = pkg.functions.get((FILE, f_.id))
+            if callee is None:
+                continue
+            n13 += 1
+            hit = _drops_pieces(callee)
+            if hit is not None:
+                ctx.bad("R13", f"{callee.name}:terms dropped from Jacobian entries", (FILE, hit[0]),
+                        f"line {n.lineno} rewrites the Jacobian entries through `{callee.name}`, which splits an entry into its terms and keeps only those passing `{hit[1][:70]}`: terms are "
+                        "dropped by a test on their text, whatever the number of times they occur (`- t + t + t` loses all three, the derivative is `+ t`), while the right-hand side "
+                        "keeps all its terms", expected="entries are only accumulated (`+=` of a term) and wrapped by the thermal prefactor", found=ast.unparse(n)[:100])
+    ctx.ok("R13", "entries are not rewritten by a term filter", (FILE, m.func.lineno), f"{n13} helper calls that re-assign Jacobian entries inspected")
+
+
+def _drops_pieces(fn):
+    """(line, test text) when `fn` splits (a value derived from) a parameter into pieces and returns a join over a filtered selection
+    of them; None otherwise"""
+    params = {a.arg for a in fn.args.args}
+    pieces = set()
+    changed = True
+    while changed:
+        changed = False
+        for n in ast.walk(fn):
+            tg, val = ([n.targets[0]], n.value) if isinstance(n, ast.Assign) and len(n.targets) == 1 else ([n.target], n.iter) if isinstance(n, (ast.For, ast.comprehension)) else ((), None)
+            if val is None:
+                continue
+            from_split = any(isinstance(x, ast.Call) and isinstance(x.func, ast.Attribute) and x.func.attr in ("split", "rsplit", "splitlines", "partition", "findall", "finditer")
+                             and (any(isinstance(y, ast.Name) and y.id in params for y in ast.walk(x)))
+                             for x in ast.walk(val))
+            if from_split or any(isinstance(x, ast.Name) and x.id in pieces for x in ast.walk(val)):
+                for t in tg:
+                    for x in ast.walk(t):
+                        if isinstance(x, ast.Name) and x.id not in pieces:
+                            pieces.add(x.id)
+                            changed = True
+    if not pieces:
+        return None
+    filtered = {}
+    for n in ast.walk(fn):
+        if isinstance(n, (ast.ListComp, ast.GeneratorExp)) and any(g.ifs for g in n.generators) and any(isinstance(x, ast.Name) and x.id in pieces for g in n.generators for x in ast.walk(g.iter)):
+            test = next(i for g in n.generators for i in g.ifs)
+            filtered[id(n)] = (n.lineno, ast.unparse(test))
+    if not filtered:
+        return None
+    names = {}
+    for n in ast.walk(fn):
+        if isinstance(n, ast.Assign) and len(n.targets) == 1 and isinstance(n.targets[0], ast.Name) and id(n.value) in filtered:
+            names[n.targets[0].id] = filtered[id(n.value)]
+    for r in ast.walk(fn):
+        if isinstance(r, ast.Return) and r.value is not None:
+            for x in ast.walk(r.value):
+                if isinstance(x, ast.Call) and isinstance(x.func, ast.Attribute) and x.func.attr == "join":
+                    for y in ast.walk(x):
+                        if id(y) in filtered:
+                            return filtered[id(y)]
+                        if isinstance(y, ast.Name) and y.id in names:
+                            return names[y.id]
+    return None
+
+
+def _r14_same_state(ctx):
+    """R14.  Fex and Jac evaluate the generated expressions on the SAME state: in each back-end the statements that fill the array the
+    pasted expressions index (`y` / `y_cur`) agree between the function printing `ode.fex` and the function printing the Jacobian.
+    A transformed copy (clamped, floored, scaled) on one side only makes the Jacobian the derivative of another function than the
+    one the solver integrates."""
+    from .. import cwriters as W
+    pairs = ((W.FEX, "Fex", W.JAC, "Jac"), (W.FEX, "FexKernel", W.JAC, "JacKernel"), (W.ODE, "Fex::operator()", W.ODE, "Jac::operator()"))
+    writes = {}
+    for rel in (W.FEX, W.JAC, W.ODE):
+        for mth, fname, arr, nf, raw, decl in W.static_writes(ctx.tree, rel, {"y", "y_cur"}):
+            if not decl:
+                writes.setdefault((rel, fname, mth), set()).add((nf, raw))
+    n = 0
+    for frel, ffn, jrel, jfn in pairs:
+        for mth in W.METHODS[frel]:
+            a = {nf: raw for nf, raw in writes.get((frel, ffn, mth), ())}
+            b = {nf: raw for nf, raw in writes.get((jrel, jfn, mth), ())}
+            n += 1
+            key = f"{ffn}/{jfn}:{mth}:same state"
+            diff = [(nf, raw, ffn) for nf, raw in a.items() if nf not in b] + [(nf, raw, jfn) for nf, raw in b.items() if nf not in a]
+            if not diff:
+                ctx.ok("R14", key, (frel, 0), f"{ffn} and {jfn} fill the array the expressions read with the same statements ({len(a)})")
+                continue
+            nf, raw, side = diff[0]
+            rhs_ = nf.split("=", 1)[1]
+            plain = re.fullmatch(r"[A-Za-z_]\w*(\[[^\]]*\])?", rhs_) is not None        # a plain copy of an element / a scalar
+            (ctx.unrec if plain else ctx.bad)(
+                "R14", key, (frel if side == ffn else jrel, 0),
+                f"`{raw}` in {side} fills the array the generated expressions index, and the sibling function has no such statement: {ffn} and {jfn} evaluate the expressions on different "
+                "states, so the Jacobian is not the derivative of the right-hand side wherever the added statement changes a value",
+                **({} if plain else dict(expected="the same binding of the abundance array on both sides", found=raw)))
+    ctx.floor("R14", "Fex/Jac sibling pairs", n, 7)
+
+
+def _csr_consumer(m, first) -> bool:
+    """is the first reader of the Jacobian table (odemodel.write_read_order) the construction of the Jacobian object or an append to
+    one of the lists recognised as CSR arrays?"""
+    if "Jacobian(" in first[2]:
+        return True
+    from .c03 import csr_roles
+    counter, roles, measured = csr_roles(m)
+    names = {f.target for v in roles.values() for f in v} | ({counter} if counter else set())
+    return any(f"`{n}`" in first[2] for n in names)
+
+
+def const_table(v):
+    """N copies of one value as a list -- `[c] * a * b`, `a * [c]`, `[c] * (a * b)`, `[c for _ in range(a) (for _ in range(b))]`,
+    `list(repeat(c, a))` -- -> (c, [a, b, ..]) (N is the product), else None"""
+    v = simp(v)
+    if v[0] == "list" and len(v[1]) == 1 and v[1][0][0] != "star":
+        return v[1][0], []
+    if v[0] == "binop" and v[1] == "Mult":
+        for a, b in ((v[2], v[3]), (v[3], v[2])):
+            t = const_table(a)
+            if t is not None and const_table(b) is None:
+                return t[0], t[1] + [b]
+        return None
+    if v[0] == "comp" and v[1] == "list" and v[3] and not any(g[2] for g in v[3]):
+        from ..valueflow import walk as _walk
+        dims = []
+        for tg, it, ifs in v[3]:
+            it = simp(it)
+            if not (it[0] == "call" and it[1] == ("global", "range") and len(it[2]) == 1 and not it[3]):
+                return None
+            dims.append(it[2][0])
+        if any(isinstance(x, tuple) and x and x[0] == "bv" for x in _walk(v[2])):
+            return None
+        return v[2], dims
+    if v[0] == "call" and v[1] == ("global", "list") and len(v[2]) == 1 and not v[3]:
+        r = v[2][0]
+        if (r[0] == "call" and r[1] == ("global", "repeat") and len(r[2]) == 2 and not r[3]) or \
+                (r[0] == "meth" and r[1] == ("global", "itertools") and r[2] == "repeat" and len(r[3]) == 2 and not r[4]):
+            a = r[2] if r[0] == "call" else r[3]
+            return a[0], [a[1]]
+    return None
 
 
 def _pair(ctx, m, kind, rs, js):
@@ -268,6 +555,13 @@ def _own_items(items, stack=()):
         if x[0] == "if":
             yield from _own_items(x[2], stack + (("if+", x[1]),))
             yield from _own_items(x[3], stack + (("if-", x[1]),))
+
+
+def _subterms(e):
+    if isinstance(e, tuple):
+        yield e
+        for y in e:
+            yield from _subterms(y)
 
 
 def _paths_in(e):
@@ -376,13 +670,22 @@ def _r4_templates(ctx, rule_decode="R4", rule_omit="R6", sent=None):
         recs = dense_layout(ctx.tree, rel, cfg, fname, callee)
         key = f"{label}:{fname}:for ode.jac.rhs"
         if len(recs) != 1:
-            (ctx.bad if recs else ctx.missing)(rule_decode, key, (rel, 0), f"{fname} has {len(recs)} loops writing `{callee}(.., row, col) = value;`, expected one")
+            # several loops filling the matrix (by blocks, by kind of entry): how they share the table is not understood
+            (ctx.unrec if recs else ctx.missing)(rule_decode, key, (rel, 0), f"{fname} has {len(recs)} loops writing `{callee}(.., row, col) = value;`, expected one")
             continue
         rec = recs[0]
         n += 1
         it, var, line = rec["loop"], rec["var"], rec["line"]
+
+        def positional(e):
+            """the (row / column) expression is arithmetic over understood quantities only: the loop position, fields of ode.jac, lengths of
+            the network's lists"""
+            return all(p_ in ("loop", "loop.index0", "loop.index", "loop^", "loop^.index0", "loop^.index") or p_.split(".")[0] in ("ode", "network") for p_ in _paths_in(e)) and \
+                not any(isinstance(x, tuple) and x and x[0] in ("call", "filter", "test", "item") and not (x[0] == "filter" and x[1] in ("int", "length", "max", "min", "abs")) for x in _subterms(e))
         if rec["form"] == "cut":
-            ctx.bad(rule_decode, key, (rel, line), f"loop over ode.jac.rhs is filtered/sliced: {J.show(it[2])}")
+            # positions in a filtered / sliced view are not positions in the table: wrong when (row, col) are computed from them
+            (ctx.bad if positional(rec["row"]) and positional(rec["col"]) else ctx.unrec)(
+                rule_decode, key, (rel, line), f"loop over ode.jac.rhs is filtered/sliced: {J.show(it[2])}")
             continue
         if rec["form"] == "csr":
             cur = _row_cursor(rec)
@@ -408,11 +711,19 @@ def _r4_templates(ctx, rule_decode="R4", rule_omit="R6", sent=None):
                       expected="batch(ode.jac.nrow)", found=J.show(rec["batch"]))
             want_row, want_col = out0, idx0
             texts = ("row = position of the row in ode.jac.rhs | batch(nrow)", "col = position of the entry in its row")
-        ctx.check(rowe == want_row, rule_decode, f"{label}:row-decode", (rel, line), texts[0], expected=J.show(want_row), found=J.show(rowe))
-        ctx.check(cole == want_col, rule_decode, f"{label}:col-decode", (rel, line), texts[1], expected=J.show(want_col), found=J.show(cole))
+        # wrong: another arithmetic expression of the loop position and nrow; anything else (a macro, a filter, a table) is not understood
+        for what, got, want_, txt_ in (("row", rowe, want_row, texts[0]), ("col", cole, want_col, texts[1])):
+            if got == want_ or positional(got):
+                ctx.check(got == want_, rule_decode, f"{label}:{what}-decode", (rel, line), txt_, expected=J.show(want_), found=J.show(got))
+            else:
+                ctx.unrec(rule_decode, f"{label}:{what}-decode", (rel, line), f"the {what} expression `{J.show(got)[:100]}` is not arithmetic over the loop position and ode.jac.nrow")
         base, fs = J.unfilter(vale)
-        ctx.check(base == var and all(f[0] == "stmwrap" for f in fs), rule_decode, f"{label}:value", (rel, line),
-                  "the assigned value is the loop's own entry through whitespace-only filters", found=J.show(vale))
+        if base == var and all(f[0] == "stmwrap" for f in fs):
+            ctx.ok(rule_decode, f"{label}:value", (rel, line), "the assigned value is the loop's own entry through whitespace-only filters")
+        elif base != var and (J.path(base) or "").startswith("ode.jac."):
+            ctx.bad(rule_decode, f"{label}:value", (rel, line), "the assigned value is the loop's own entry through whitespace-only filters", found=J.show(vale))
+        else:
+            ctx.unrec(rule_decode, f"{label}:value", (rel, line), f"the assigned value `{J.show(vale)[:100]}` is not the loop's own entry through whitespace-only filters")
         # R6 (template side): omitted iff == sentinel, however the test is spelled (`!=`, `==` with the arms swapped, `not`, `is ne`)
         guards = [J.canon_test(g[1], g[0] == "if+") for g in rec["guards"]] + [J.canon_test(g[1], g[0] == "if+") for g in rec.get("outer_guards", [])]
         okey = f"{label}:omit-iff-sentinel"
@@ -478,6 +789,8 @@ def _r5(ctx, m):
                     jcall = (ctor(a, "Jacobian"), f.line, f.seq)
     if jcall is None:
         ctx.missing("R5", "Jacobian(...)", (FILE, m.func.lineno), "construction of TemplateLoader.Jacobian not found")
+    elif any(a_[0] == "star" for a_ in jcall[0][2]) or any(k_ in ("**", None) for k_, _ in jcall[0][3]):
+        ctx.unrec("R5", "Jacobian(*..)", (FILE, jcall[1]), "Jacobian is constructed with unpacked arguments: which value reaches which field is not decided")
     else:
         args = _bind_args(dataclass_fields(pkg, "TemplateLoader.Jacobian"), jcall[0])
         want = {
@@ -512,6 +825,8 @@ def _r5(ctx, m):
                 ctx.unrec("R5", f"Jacobian.{fld}", (FILE, jcall[1]), f"field `{fld}` receives `{show(sa_)[:100]}`: not traced to {desc}")
     if ocall is None:
         ctx.missing("R5", "ODEContent(...)", (FILE, m.func.lineno), "return ODEContent(...) not found")
+    elif any(a_[0] == "star" for a_ in ocall[0][2]) or any(k_ in ("**", None) for k_, _ in ocall[0][3]):
+        ctx.unrec("R5", "ODEContent(*..)", (FILE, ocall[1]), "ODEContent is constructed with unpacked arguments: which value reaches which field is not decided")
     else:
         args = _bind_args(dataclass_fields(pkg, "TemplateLoader.ODEContent"), ocall[0])
 
@@ -531,8 +846,15 @@ def _r5(ctx, m):
         }
         for fld, (pred, desc) in want.items():
             a = args.get(fld)
-            ctx.check(a is not None and bool(pred(simp(a))), "R5", f"ODEContent.{fld}", (FILE, ocall[1]),
-                      f"field `{fld}` receives {desc}", expected=desc, found=show(simp(a))[:100] if a is not None else "missing")
+            sa_ = simp(a) if a is not None else None
+            good = a is not None and bool(pred(sa_))
+            # wrong: the field is missing or receives what belongs to ANOTHER field; a value of unknown provenance is "cannot decide"
+            other = [g for g, (p2, _) in want.items() if g != fld and a is not None and bool(p2(sa_))]
+            if good or a is None or other:
+                ctx.check(good, "R5", f"ODEContent.{fld}", (FILE, ocall[1]),
+                          f"field `{fld}` receives {desc}", expected=desc, found=show(sa_)[:100] if a is not None else "missing")
+            else:
+                ctx.unrec("R5", f"ODEContent.{fld}", (FILE, ocall[1]), f"field `{fld}` receives `{show(sa_)[:100]}`: not traced to {desc}")
     # --- RenormContent: by role -- `factor` holds one entry per species, `matrix` one per (element, element) pair, whichever way the
     #     lists are filled (nested loops, itertools.product, comprehensions, helper methods put back by pymodel.expanded)
     fn = pkg.expanded("TemplateLoader", "_prepare_renorm_content")
@@ -552,14 +874,21 @@ def _r5(ctx, m):
         if it[0] == "call" and it[1] == ("global", "zip") and it[2] and not it[3]:
             ds = [domains(x) for x in it[2]]
             return ds[0] if all(d is not None and d == ds[0] for d in ds) else None
-        if it[0] == "call" and it[1] in (("global", "product"), ("attr", ("global", "itertools"), "product")) and it[2] and not it[3]:
+        if it[0] == "call" and it[1] in (("global", "product"), ("attr", ("global", "itertools"), "product")) and it[2] and \
+                (not it[3] or (len(it[3]) == 1 and it[3][0][0] == "repeat" and it[3][0][1][0] == "const" and type(it[3][0][1][1]) is int and 1 <= it[3][0][1][1] <= 4)):
             out = []
             for x in it[2]:
                 d = domains(x)
                 if d is None:
                     return None
                 out += d
-            return out
+            return out * (it[3][0][1][1] if it[3] else 1)      # product(A, repeat=2) is product(A, A)
+        if it[0] == "call" and it[1] == ("global", "range") and len(it[2]) == 1 and not it[3]:
+            # the positions of a sequence stand for its elements: range(len(S))
+            n_ = simp(it[2][0])
+            if n_[0] == "call" and n_[1] == ("global", "len") and len(n_[2]) == 1 and not n_[3]:
+                return domains(n_[2][0])
+            return None
         b = seq_base(it)
         return [b] if b is not None else None
 
@@ -643,6 +972,15 @@ def _r5(ctx, m):
 
 T = FILE
 MUTANTS = [
+    {"name": "jacobian-table-handed-out-from-a-module-level-memo", "edits": [
+        {"file": T, "old": "\nclass TemplateLoader:\n", "new": "\n_JAC_TABLES = {}\n\n\nclass TemplateLoader:\n"},
+        {"file": T, "old": "    def _prepare_ode_content(\n", "new": "    def _empty_table(self, n):\n        table = _JAC_TABLES.get(n)\n        if table is None:\n            table = [\"0.0\"] * n * n\n            _JAC_TABLES[n] = table\n        return table\n\n    def _prepare_ode_content(\n"},
+        {"file": T, "old": '        jacrhs = ["0.0"] * n_eqns * n_eqns\n', "new": '        jacrhs = self._empty_table(n_eqns)\n'}], "rules": ["R12"]},
+    {"name": "cancelling-terms-removed-by-membership", "edits": [
+        {"file": T, "old": "    def _prepare_ode_content(\n", "new": "    @staticmethod\n    def _tidy(entry):\n        head, *toks = entry.split(\" \")\n        pairs = list(zip(toks[0::2], toks[1::2]))\n        minus = [t for s, t in pairs if s == \"-\"]\n        plus = [t for s, t in pairs if s == \"+\"]\n        return \" \".join([head, *[f\"{s} {t}\" for s, t in pairs if t not in (plus if s == \"-\" else minus)]])\n\n    def _prepare_ode_content(\n"},
+        {"file": T, "old": "        # add the modifying term to fex and jac\n", "new": "        jacrhs = [self._tidy(e) for e in jacrhs]\n        # add the modifying term to fex and jac\n"}], "rules": ["R13"]},
+    {"name": "fex-evaluates-on-floored-abundances", "file": "naunet/templates/cvode/src/naunet_fex.cpp.j2",
+     "old": "    realtype *y            = N_VGetArrayPointer(u);\n", "new": "    realtype *yraw         = N_VGetArrayPointer(u);\n    realtype y[NEQUATIONS];\n    for (int i = 0; i < NEQUATIONS; i++) {\n        y[i] = yraw[i] < 0.0 ? 0.0 : yraw[i];\n    }\n", "rules": ["R14"]},
     {"name": "jacobian-rows-created-by-list-multiplication", "edits": [
         {"file": T, "old": "from pathlib import Path\n", "new": "from itertools import chain\nfrom pathlib import Path\n"},
         {"file": T, "old": '        jacrhs = ["0.0"] * n_eqns * n_eqns\n', "new": '        jacrows = [["0.0"] * n_eqns] * n_eqns\n'},
